@@ -300,7 +300,7 @@ impl<'ast, 'res> Resolver<'ast, 'res> {
             Stmt::If { cond, then_b, else_b, .. } => {
                 self.check_expr(cond);
                 self.check_boolean_expr(cond);
-                self.set_stmt_expr_class(self.classify_expr(cond));
+                self.set_stmt_expr_class(self.classify_condition(cond));
                 self.check_block(then_b);
                 // Else block is optional in the grammar
                 if let Some(eb) = else_b {
@@ -311,7 +311,7 @@ impl<'ast, 'res> Resolver<'ast, 'res> {
             Stmt::Loop { cond, body, .. } => {
                 self.check_expr(cond);
                 self.check_boolean_expr(cond);
-                self.set_stmt_expr_class(self.classify_expr(cond));
+                self.set_stmt_expr_class(self.classify_condition(cond));
                 self.in_loop += 1;
                 self.check_block(body);
                 self.in_loop -= 1;
@@ -1154,6 +1154,15 @@ impl<'ast, 'res> Resolver<'ast, 'res> {
         }
     }
 
+    fn classify_condition(&self, cond: ExprRef<'ast>) -> ExprClass {
+        let class = self.classify_expr(cond);
+        if self.type_only_known_at_runtime(cond) {
+            class.join(ExprClass::PureMayTrap)
+        } else {
+            class
+        }
+    }
+
     fn classify_expr(&self, expr: ExprRef<'ast>) -> ExprClass {
         match expr {
             Expr::Number(..) | Expr::Bool(..) | Expr::Null(..) | Expr::Var(..) => {
@@ -1171,24 +1180,40 @@ impl<'ast, 'res> Resolver<'ast, 'res> {
                 .join(ExprClass::PureMayTrap),
             Expr::Binary { op, lhs, rhs, .. } => {
                 let class = self.classify_expr(lhs).join(self.classify_expr(rhs));
-                if matches!(op, BinaryOp::Divide | BinaryOp::Mod) {
+                if matches!(op, BinaryOp::Divide | BinaryOp::Mod)
+                    || self.type_only_known_at_runtime(lhs)
+                    || self.type_only_known_at_runtime(rhs)
+                {
                     class.join(ExprClass::PureMayTrap)
                 } else {
                     class
                 }
             }
-            Expr::Unary { expr, .. } => self.classify_expr(expr),
+            Expr::Unary { expr, .. } => {
+                let class = self.classify_expr(expr);
+                if self.type_only_known_at_runtime(expr) {
+                    class.join(ExprClass::PureMayTrap)
+                } else {
+                    class
+                }
+            }
             Expr::Member { object, .. } => self.classify_expr(object),
             Expr::Call { callee, args, .. } => {
                 let mut class = args
                     .args
                     .iter()
                     .fold(ExprClass::PureNoTrap, |class, arg| class.join(self.classify_expr(arg)));
+                // A built-in checks the types of its arguments when it runs.
+                let unchecked_arg =
+                    args.args.iter().any(|arg| self.type_only_known_at_runtime(arg));
 
                 match callee {
                     Expr::Var(func_name, ..) => {
                         if let Some(builtin) = GlobalBuiltin::from_name(func_name) {
                             class = class.join(effects::global_builtin_class(builtin));
+                            if unchecked_arg && matches!(builtin, GlobalBuiltin::Command) {
+                                class = class.join(ExprClass::PureMayTrap);
+                            }
                         } else if self.lookup_func(func_name).is_none() {
                             class = class.join(ExprClass::Impure);
                         }
@@ -1197,6 +1222,9 @@ impl<'ast, 'res> Resolver<'ast, 'res> {
                         class = class.join(self.classify_expr(object));
                         if let Some(builtin) = MemberBuiltin::from_name(field) {
                             class = class.join(effects::member_builtin_class(builtin));
+                            if unchecked_arg {
+                                class = class.join(ExprClass::PureMayTrap);
+                            }
                         } else {
                             class = class.join(ExprClass::Impure);
                         }
@@ -1221,6 +1249,12 @@ impl<'ast, 'res> Resolver<'ast, 'res> {
                 class
             }
         }
+    }
+
+    /// An operand the checker could not type: whether it fits its operator, condition
+    /// or built-in parameter is decided at run time, with a type mismatch error if not.
+    fn type_only_known_at_runtime(&self, expr: ExprRef<'ast>) -> bool {
+        matches!(self.infer_expr_type(expr), None | Some(ValueType::Dynamic))
     }
 
     #[inline]
